@@ -20,6 +20,8 @@ fn run_one(prop: &str, fam: &str, p: &Node) -> Bad {
         "[i16;2]" => go!([i16; 2]),
         "[u8;3]" => go!([u8; 3]),
         "[f64;2]" => go!([f64; 2]),
+        "[i32;2]" => go!([i32; 2]),
+        "[i64;1]" => go!([i64; 1]),
         _ => Some(("prog".into(), format!("unknown family {fam}"))),
     }
 }
@@ -36,7 +38,7 @@ pub fn main_for(prop: &'static str) {
         ctx.finish_replay(catch(|| run_one(prop, &fam, &p)).unwrap_or_else(|e| Some(("panic".into(), e))).map(|x| format!("{}: {}", x.0, x.1)));
     }
     let quick = !ctx.thorough();
-    let fams: [(&str, usize); 4] = [("f32", 1), ("[i16;2]", 2), ("[u8;3]", 3), ("[f64;2]", 2)];
+    let fams: [(&str, usize); 6] = [("f32", 1), ("[i16;2]", 2), ("[u8;3]", 3), ("[f64;2]", 2), ("[i32;2]", 2), ("[i64;1]", 1)];
     let evals = AtomicU64::new(0);
     let nexts = AtomicU64::new(0);
     let mut total_programs = 0usize;
@@ -52,7 +54,7 @@ pub fn main_for(prop: &'static str) {
         progs.extend(interleaved_lengths(ch));
         if !quick {
             // depth-3 trees over a small alphabet
-            progs.extend(small_trees(3, &[Leaf::Probe(2), Leaf::Iter(1), Leaf::Equil], &[Un::ScaleHalf, Un::Delay(1), Un::Clip]));
+            progs.extend(small_trees(3, &[Leaf::Probe(2), Leaf::Iter(1)], &[Un::Delay(1), Un::Clip]));
             progs.sort_by_key(|n| n.show());
             progs.dedup();
         }
@@ -79,9 +81,9 @@ pub fn main_for(prop: &'static str) {
     ctx.set("programs", json!(total_programs));
     ctx.set("horizon_calls_primary_run", json!(nexts.load(Relaxed)));
     ctx.set("exhaustive", json!(true));
-    ctx.set("exhaustive_scope", json!(format!("every adaptor tree of depth <=2 and every unary stack of depth <={} over the leaf alphabet, 4 frame families; right operands of add_amp/mul_amp are unary stacks of depth <=1 in the companion family; deeper programs are not explored (thorough adds every depth-3 tree over 3 leaves x 3 unary adaptors)", if quick { 3 } else { 4 })));
+    ctx.set("exhaustive_scope", json!(format!("every adaptor tree of depth <=2 and every unary stack of depth <={} over the leaf alphabet, 4 frame families; right operands of add_amp/mul_amp are unary stacks of depth <=1 in the companion family; deeper programs are not explored (thorough adds every depth-3 tree over 2 leaves x 2 unary adaptors, about 2.7 million per family)", if quick { 3 } else { 4 })));
     if prop == "C04" {
-        ctx.rule("programs: leaves = instrumented probe (length 0..3), from_iter, from_interleaved_samples_iter, equilibrium, gen, gen_mut; unary = map, scale_amp(0.5), scale_amp(-1), offset_amp, scale_amp_per_channel, offset_amp_per_channel, clip_amp, inspect, delay(0|1|2); binary = add_amp, mul_amp (right operand in the Signed / Float companion family), zip_map; all trees of depth <=2, all unary stacks to depth 3 (quick) / 4 (thorough); families f32, [i16;2], [u8;3], [f64;2]; each program run for longest source + total delay + 3 calls: frame n == interpreter (real Frame op applied pointwise, clip = clamp of the signed amplitude, delay = k equilibrium frames), every probe pulled exactly once per call and not at all while a delay above it is emitting silence, inspect saw exactly the frames that passed, and for every j <= horizon the program built over a borrowed probe, run j steps and dropped leaves the probe at frame j - delays; non-trivial = a program with at least one adaptor, distinct by (family, program)");
+        ctx.rule("programs: leaves = instrumented probe (length 0..3), from_iter, from_interleaved_samples_iter, equilibrium, gen, gen_mut; unary = map, scale_amp(0.5), scale_amp(-1), scale_amp(0), scale_amp(1), offset_amp, scale_amp_per_channel, offset_amp_per_channel, clip_amp, inspect, delay(0|1|2); binary = add_amp, mul_amp (right operand in the Signed / Float companion family), zip_map; all trees of depth <=2, all unary stacks to depth 3 (quick) / 4 (thorough); families f32, [i16;2], [u8;3], [f64;2], [i32;2], [i64;1] (the last two with values and clip thresholds that do not fit the Float companion's mantissa); each program run for longest source + total delay + 3 calls: frame n == interpreter (real Frame op applied pointwise, clip = clamp of the signed amplitude, delay = k equilibrium frames), every probe pulled exactly once per call and not at all while a delay above it is emitting silence, inspect saw exactly the frames that passed, and for every j <= horizon the program built over a borrowed probe, run j steps and dropped leaves the probe at frame j - delays; non-trivial = a program with at least one adaptor, distinct by (family, program)");
     } else {
         ctx.rule("same program space as C04; per program: is_exhausted() before and after every next() == (calls >= T) with T from the exhaustion algebra (leaf: number of complete frames; unary: forwarded; delay(k): T+k; binary: min), 3 further calls return the interpreter's frames, until_exhausted() and lift() yield exactly T frames then None three times, into_interleaved_samples (iterator and next_sample) yields exactly T x channels samples in channel order then None, take(n) for n in 0..=T+2 yields exactly n frames with exact len/size_hint; interleaved sources of every sample count 0..=3N+1; non-trivial = a program with at least one adaptor, distinct by (family, program)");
     }
